@@ -93,13 +93,22 @@ def run(chk):
             for a_, (I_, env_) in r1_paths:
                 out_ = env_[f["params"][0]["id"]]
                 pre = [e for e in I_.effects if e.target == out_.name]
-                okp = [e.op for e in pre][:2] == ["resize", "setZero"] and sym.is_zero(pre[0].value[0] - K * n)
+                # sized K*N, and then either zeroed as a whole before the loop or every one of the K rows of every segment
+                # assigned (not accumulated) inside the loop - either way nothing of what the buffer held before survives
+                sized = bool(pre) and pre[0].op == "resize" and sym.is_zero(pre[0].value[0] - K * n)
+                zeroed = [e.op for e in pre][:2] == ["resize", "setZero"]
+                assigned = False
+                if len(I_.loops) == 1:
+                    L_ = I_.loops[0]
+                    keys_ = {sp.expand(e.key[0] - K * L_.var): e for e in L_.effects if e.target == out_.name and len(e.key) == 1}
+                    assigned = all(Integer(k_) in keys_ and keys_[Integer(k_)].op == "=" for k_ in range(K)) and L_.lo == 0 and upper_excl(L_) is not None and sym.is_zero(upper_excl(L_) - n)
+                okp = sized and (zeroed or assigned)
                 if not okp:
                     ok_pre = False
                     det_pre = "when %s: effects before the loop: %s" % ({str(k_): v_ for k_, v_ in a_.items()} or "always", [(e.op, e.value) for e in pre])
             I, env = r1_paths[0][1]
             out = env[f["params"][0]["id"]]
-            chk.ob("C06-R1", "%s dE/dC is resized to K*N rows and zeroed first, whatever the buffer held before" % cls, ok_pre, loc(f), det_pre or "%d configurations" % len(r1_paths), construct="%s/dEdC/init" % cls)
+            chk.ob("C06-R1", "%s dE/dC is resized to K*N rows and zeroed (as a whole, or row by row) before any row is used, whatever the buffer held before" % cls, ok_pre, loc(f), det_pre or "%d configurations" % len(r1_paths), construct="%s/dEdC/init" % cls)
             if len(I.loops) != 1:
                 raise Broken("dE/dC: expected one loop")
             L = I.loops[0]
